@@ -61,10 +61,21 @@ def _eval_batch(args):
             out.append(mod.eval_case(c))
         except _inconclusive():
             out.append(mkres(c, nt=False, classes=['wall-clock-budget-hit-inconclusive']))
-        except Exception:
-            out.append({'case': c, 'key': case_hash(c), 'nt': False, 'classes': ['harness-error'], 'fails': [], 'info': None, 'harness_error': traceback.format_exc()})
+        except Exception as e:
+            out.append(_exc_result(c, e))
     cov.dump()
     return out
+
+
+def _exc_result(c, e):
+    """An exception escaping from eval_case: raised by the code under test (innermost frame inside ssh_audit, reached
+    from a direct call of the check) it is a failure of that case - the checks catch the exceptions a function is
+    documented to raise themselves -; anything else is an error of the harness."""
+    sig = tool_exception_sig(e)
+    if sig is not None:
+        tail = ''.join(traceback.format_exception_only(type(e), e)).strip()[:300]
+        return {'case': c, 'key': case_hash(c), 'nt': True, 'classes': ['tool-raised'], 'fails': [[sig, tail]], 'info': None}
+    return {'case': c, 'key': case_hash(c), 'nt': False, 'classes': ['harness-error'], 'fails': [], 'info': None, 'harness_error': traceback.format_exc()}
 
 
 def _hyp_shard(args):
@@ -85,8 +96,8 @@ def _hyp_shard(args):
             out.append(mod.eval_case(case))
         except _inconclusive():
             out.append(mkres(case, nt=False, classes=['wall-clock-budget-hit-inconclusive']))
-        except Exception:
-            out.append({'case': case, 'key': case_hash(case), 'nt': False, 'classes': ['harness-error'], 'fails': [], 'info': None, 'harness_error': traceback.format_exc()})
+        except Exception as e:
+            out.append(_exc_result(case, e))
 
     t()
     cov.dump()
